@@ -22,7 +22,7 @@ RULE = ("raw inputs assembled from zoo meshes (point clouds, polylines, polygon 
         "three construction routes (raw containers, from_arrays, file) x index rows as list/tuple/numpy row/numpy ints; completion "
         "switches on/off; non-trivial = at least one declared edge and one invalid element, or a cell mesh; distinct = input hash")
 REQUIRED = {"norm": 3000, "idem": 200, "rows": 100, "corners": 300}
-CASE_TIMEOUT = {"quick": 60.0, "thorough": 600.0}
+CASE_TIMEOUT = {"quick": 30.0, "thorough": 600.0}
 ASSUMPTIONS = ["declared edges are pairwise distinct as unordered pairs (the statement does not say what a twice-declared edge becomes)",
                "edge order and integer types (int vs numpy.int64) are not compared, only values",
                "2-column vertex arrays are fed through from_arrays only (the documented padding route)"]
